@@ -15,6 +15,7 @@ import Pog.Drv.Resolve
 import Pog.Drv.Extract
 import Pog.Drv.Dc
 import Pog.Drv.Loader
+import Pog.Drv.ClientGen
 /-
   Line protocol: one JSON request per line on stdin, one JSON reply per line on stdout.
     request  {"f": <function>, "a": [<args>], "u": {<codepoint>: {"w":bool,"d":bool,"l":str,"U":str,"iu":bool}}}
@@ -40,7 +41,8 @@ def dispatchers : List Dispatch := [
   dispatchResolve,
   dispatchExtract,
   dispatchDc,
-  dispatchLoader
+  dispatchLoader,
+  dispatchClientGen
 ]
 
 def dispatch (f : String) (a : Array Json) (u : UInfo) : Except String Json :=
